@@ -99,6 +99,9 @@ class Report:
             "exhaustive": True,
         }
         if self.level == "proof":
+            aud = sum(r["audited"] for r in self.rules.values())
+            if aud:
+                self.trusted_base.append("%d obligations discharged by an audited table entry (read and justified by hand, listed in the rule's source), not by the checker" % aud)
             cov["checker_cmd"] = "python3 /verif/engine/check.py %s %s" % (self.pid, self.tier)
             cov["trusted_base"] = self.trusted_base
         if self.level == "translation_validation":
